@@ -86,7 +86,8 @@ def _peel_rewrites(v):
 def _alias_rule(ctx, pkg):
     fn = pkg.method("Species", "alias")
     ctx.saw(SP, "Species.alias")
-    fl = Flow(fn, SP)
+    # small pure helpers of Species (`self._charge_suffix()`) are read through
+    fl = Flow(fn, SP, resolver=lambda name: pkg.resolve("Species", name)[1])
     st = [f for f in fl.facts if f.kind == "attrstore" and f.target == "_alias"]
     out = {"ok": False, "sanitises": False, "line": fn.lineno}
     if not st:
@@ -120,6 +121,11 @@ def _alias_rule(ctx, pkg):
         parts = list(v[3])
     elif v[0] == "fstr":
         parts = [p[1] if p[0] == "fmt" else p for p in v[1]]
+    elif v[0] == "binop" and v[1] == "Add":
+        # a + b + c: the concatenated pieces, left to right
+        def cat(x):
+            return cat(x[2]) + cat(x[3]) if x[0] == "binop" and x[1] == "Add" else [x]
+        parts = cat(v)
     if not parts or len(parts) < 3:
         ctx.unrec("R6", "Species.alias", (SP, st[0].line), f"alias is not <phase><basename><charge suffix>: {show(v)[:100]}")
         return out
@@ -178,7 +184,7 @@ def fold(v, env, flow=None):
     if k == "cmp" and len(v[1]) == 1:
         a, b = fold(v[2][0], env, flow), fold(v[2][1], env, flow)
         return {"Lt": a < b, "LtE": a <= b, "Gt": a > b, "GtE": a >= b, "Eq": a == b, "NotEq": a != b}[v[1][0]]
-    if k == "ifexp":
+    if k in ("ifexp", "phi"):
         return fold(v[2], env, flow) if fold(v[1], env, flow) else fold(v[3], env, flow)
     if k == "call" and v[1] == ("global", "abs") and len(v[2]) == 1:
         return abs(fold(v[2][0], env, flow))
